@@ -148,6 +148,52 @@ def check_derived(drep, mode, dgens, vals, dim):
     return len(vals)
 
 
+def auto_check(rep, L, table, red, norms=None, full=True):
+    """vectorised evaluation driven by the free automaton (single-letter names: the returned words are
+    concatenated labels).  Every returned pair (matrix, word) must have matrix = specified image of word --
+    in the start direction (letters prepended) and in the end direction (letters appended) -- and the default
+    route returns exactly the specified freely reduced words, each once.  Returns the number of pairs."""
+    from geometry_tools.automata import fsa
+    tab = {"".join(w): m for w, m in table}
+    want = sorted("".join(w) for w in red)
+    n = 0
+
+    def pairs(what, res):
+        try:
+            mats, words = res
+            mats = rc.plain(mats)
+        except Exception as e:
+            raise Bad("vectorised.shape", "%s did not return (matrices, words): %s" % (what, e))
+        if len(mats) != len(words):
+            raise Bad("vectorised.shape", "%s returned %d matrices for %d words" % (what, len(mats), len(words)))
+        for m, w in zip(mats, words):
+            if w not in tab:
+                raise Bad("vectorised.words", "%s returned the word %r, not a word of length <= %d over the generators" % (what, w, L))
+            if not rc.close(m, tab[w], slack=rc.word_slack(w, norms)):
+                raise Bad("vectorised.image", "%s pairs the word %r with %r, specified image %r" % (what, w, rc.show(m), rc.show(tab[w])))
+        return list(words)
+
+    try:
+        words = pairs("freely_reduced_elements(%d, with_words=True)" % L, rep.freely_reduced_elements(L, with_words=True))
+        if sorted(words) != want:
+            raise Bad("vectorised.free_words", "freely_reduced_elements(%d) returned the words %r, specified %r" % (L, sorted(words)[:12], want[:12]))
+        n += len(words)
+        k = len(rc.plain(rep.freely_reduced_elements(L)))
+        if k != len(want):
+            raise Bad("vectorised.count", "freely_reduced_elements(%d) returned %d matrices, specified %d words" % (L, k, len(want)))
+        auto = fsa.free_automaton(list(rep.asym_gens()))
+        for v in list(auto.vertices()):
+            for key in ("start_state", "end_state"):
+                for maxlen in ((True, False) if full else (True,)):
+                    what = "automaton_accepted(free automaton, %d, with_words=True, maxlen=%s, %s=%r)" % (L, maxlen, key, v)
+                    n += len(pairs(what, rep.automaton_accepted(auto, L, with_words=True, maxlen=maxlen, **{key: v})))
+    except Bad:
+        raise
+    except Exception as e:
+        raise Bad("raised:vectorised", "automaton-driven evaluation raised %s: %s" % (type(e).__name__, e))
+    return n
+
+
 def part_base(row, mode, cx=False):
     gens = gens_of(row["gens"], cx)
     rep = rc.build(mode, gens)
@@ -178,6 +224,8 @@ def part_base(row, mode, cx=False):
             if got != "".join(finv):
                 raise Bad("formal_inverse", "formal_inverse(%r) = %r, specified %r" % (s, got, "".join(finv)))
             n += 2
+    if not cx and mode.naming == "single" and mode.parse is None and "reduced" in row:
+        n += auto_check(rep, row["autolen"], vals, [tuple(w) for w in row["reduced"]], norms)
     # the group generators are exactly the assigned lower-case names
     lows = sorted(mode.name(l) for l in gens if l.islower())
     if sorted(rep.asym_gens()) != lows:
@@ -496,7 +544,8 @@ def tables(run, r, name, quick, tag=""):
 # ----------------------------------------------------------------------------------------
 HLTS = None
 HOBS = None
-HEVAL = None     # states in which the specification enables Eval (all with at least one generator)
+HEVAL = None     # states in which the specification enables Eval and Enumerate (all with at least one generator)
+HWORDLEN = 2
 
 
 def hkey(k):
@@ -536,6 +585,8 @@ def observe(rep, der, key, mode, with_dict=True):
             need(rc.dict_check(der, gens_of(k["dgens"]), dm, "derived.generators"))
         need(rc.words_check(der, dm, obs["dvals_t"], "derived.image", all_forms=False))
     if mode.naming == "single" and mode.parse is None and k["gens"]:
+        # the Enumerate action: vectorised evaluation in both directions
+        auto_check(rep, HWORDLEN, obs["vals_t"], obs["red_t"], full=False)
         lowers = list(rep.asym_gens())
         dim = rep.dim
         cob = np.asarray(rep.coboundary_matrix())
@@ -620,33 +671,38 @@ def hist_chunk(args):
     return n, viol, sample
 
 
-def hist_cfg(depth):
-    return core.cfg(constants=dict(MaxSteps=depth, WordLen=2), invariants=["Coherent", "LastWins", "EmitObs"],
+def hist_cfg(depth, big=False):
+    return core.cfg(constants=dict(MaxSteps=depth, WordLen=2, Big=big),
+                    invariants=["Coherent", "LastWins", "BothDirections", "EmitObs"],
                     view="View", action_constraints=["Emit"])
 
 
-def histories(run, r, quick, depth):
+def histories(run, r, quick, depth, tag=""):
     global HLTS, HOBS, HEVAL
     HOBS = {}
     HEVAL = set()
+    henum = set()
     for row in parse_rows(r.stdout, '"OBS '):
         row["vals_t"] = table_of(row["vals"])
         row["dvals_t"] = table_of(row["dvals"])
+        row["red_t"] = [tuple(w) for w in row["red"]]
         HOBS[hkey(row["key"])] = row
     HLTS = {}
     seen = set()
     for e in r.emits:
         fk, tk = hkey(e["from"]), hkey(e["to"])
-        if e["act"]["a"] == "eval":
+        if e["act"]["a"] in ("eval", "enumerate"):
             if fk != tk:
-                raise core.MachineryFailure("RepHist: Eval changed the state")
-            HEVAL.add(fk)
+                raise core.MachineryFailure("RepHist: a query changed the state")
+            (HEVAL if e["act"]["a"] == "eval" else henum).add(fk)
             continue
         sig = (fk, json.dumps(e["act"], sort_keys=True))
         if sig in seen:
             continue
         seen.add(sig)
         HLTS.setdefault(fk, []).append((e["act"], tk))
+    if henum != HEVAL:
+        raise core.MachineryFailure("RepHist: Eval and Enumerate are not enabled in the same states")
     for k in HLTS:
         HLTS[k].sort(key=lambda x: json.dumps(x[0], sort_keys=True))
     init = hkey(dict(gens={}, dkind="none", dgens={}))
@@ -664,14 +720,14 @@ def histories(run, r, quick, depth):
     for k, viol, sample in outs:
         tot += k
         for hist, mode, bad in viol:
-            run.violation("hist:%s:%s" % (";".join(hist), mode), "history:" + bad[0], dict(history=hist, mode=mode, observed=bad[1]))
+            run.violation("hist%s:%s:%s" % (tag, ";".join(hist), mode), "history:" + bad[0], dict(history=hist, mode=mode, observed=bad[1]))
         if sample:
-            run.sample(dict(kind="history", actions=sample))
+            run.sample(dict(kind="history" + tag, actions=sample))
     run.evaluations += tot
     run.traces += tot
     run.nontrivial_count += tot
-    run.actions["history"] = tot
-    run.extra["histories"] = dict(depth=depth, abstract_states=len(HOBS), transitions=len(seen), replayed=tot)
+    run.actions["history" + tag] = tot
+    run.extra["histories" + tag] = dict(depth=depth, abstract_states=len(HOBS), transitions=len(seen), replayed=tot)
 
 
 # ----------------------------------------------------------------------------------------
@@ -706,19 +762,24 @@ def run(run, replay=None):
     c = core.cfg(constants=dict(Cases=core.Raw(base), CCases=core.Raw("BaseCCases")), invariants=["Theorems", "EmitObs"])
     c = c.replace("Cases = " + base, "Cases <- " + base).replace("CCases = BaseCCases", "CCases <- BaseCCases")
     depth = 3 if quick else 4
+    big_depth = 2 if quick else 3
     rand_path, rand_cfg = rep_random.prepare(run, quick)
     recorded = rep_trace.record(run, quick)
     # the four TLC runs are independent: run them side by side (12 worker threads in total)
     from .. import rep_suite
-    with ThreadPoolExecutor(5) as ex:
+    with ThreadPoolExecutor(6) as ex:
         f_suite = ex.submit(rep_suite.run, run)      # (E) histories of the repository's own tests (pytest + 1 TLC worker)
         f_rep = ex.submit(run.tlc, "rep/Rep.tla", c, name="Rep", workers=min(6, core.NCPU), emit_prefix="\x00none")
         f_hist = ex.submit(run.tlc, "rep/RepHist.tla", hist_cfg(depth), name="RepHist", workers=min(2, core.NCPU))
+        f_big = ex.submit(run.tlc, "rep/RepHist.tla", hist_cfg(big_depth, big=True), name="RepHistBig", workers=1)
         f_rand = ex.submit(run.tlc, rand_path, rand_cfg, name="RepRand", workers=min(2, core.NCPU), emit_prefix="\x00none")
         f_trace = ex.submit(rep_trace.validate, run, recorded[0], "RepTrace") if recorded[0] else None
         results = [f.result() if f else None for f in (f_rep, f_hist, f_rand, f_trace)]
         f_suite.result()
+        r_big = f_big.result()
     tables(run, results[0], "Rep", quick)
     histories(run, results[1], quick, depth)
+    # the same machine over large-entry matrices that are relatively close to each other
+    histories(run, r_big, quick, big_depth, tag="_close_values")
     tables(run, results[2], "RepRand", quick, tag="rand:")
     rep_trace.finish(run, recorded, results[3])
